@@ -16,7 +16,7 @@ NOT_END = ["Mr.", "A.", "3.", "U.S.", "e.g.", "ok:", "THE.", "x.", "42."]
 # words that look like block syntax when they start a line
 HAZ_ESCAPED = ["-", "+", "*", ">", "#", "##", "######", "1.", "2)", "10.", "007."]
 HAZ_UNESCAPED = ["---", "===", "=", "--", "***", "___", "```", "~~~", ">>", "|", "* * *", "- - -", "+x", "-x",
-                 "#tag", "1.5", "\\", "&", "<", "####### ", ":", "[x]", "[ ]", "1.a", "-1."]
+                 "#tag", "1.5", "\\", "&", "<", "####### ", ":", "[x]", "[ ]", "1.a", "-1.", "<=", "<-", "<3", ">=", "->", "80>120"]
 
 CODE_SPANS = ["`x`", "`a b`", "`a  b c`", "`` a`b ``", "`foo(bar, baz)`", "`--flag value`", "`*not em*`",
               "`<tag attr>`", "`a. B c`", "`end. Next`"]
